@@ -1,14 +1,284 @@
+// Peripheral front ends: tx-export-convert (xlsx), etrade-plan-pdf-tx-extract (texts),
+// questrade statement FMV parsing and the PDF page-hint machinery.
+
+use std::path::PathBuf;
+use std::sync::Arc;
+
 use serde_json::{json, Value};
 
-pub fn run_xlsx_case(_case: &Value) -> Value {
-    json!({"harness_error": "not implemented"})
+use acb::peripheral::etrade_plan_pdf_tx_extract_impl as etrade_impl;
+use acb::peripheral::pdf::LazyPageTextVec;
+use acb::peripheral::questrade_statement_fmv_impl::parse_statement_text;
+use acb::peripheral::tx_export_convert_impl as conv_impl;
+use acb::util::rw::WriteHandle;
+
+fn write_xlsx(path: &str, sheets: &Vec<Value>) -> Result<(), String> {
+    use rust_xlsxwriter::{Formula, Workbook};
+    let mut wb = Workbook::new();
+    for sh in sheets {
+        let ws = wb.add_worksheet();
+        if let Some(n) = sh.get("name").and_then(|n| n.as_str()) {
+            ws.set_name(n).map_err(|e| e.to_string())?;
+        }
+        let empty = Vec::new();
+        let rows = sh.get("rows").and_then(|r| r.as_array()).unwrap_or(&empty);
+        for (ri, row) in rows.iter().enumerate() {
+            let cells = row.as_array().unwrap_or(&empty);
+            for (ci, cell) in cells.iter().enumerate() {
+                let (r, c) = (ri as u32, ci as u16);
+                if cell.is_null() {
+                    continue;
+                }
+                if let Some(s) = cell.get("s").and_then(|s| s.as_str()) {
+                    ws.write_string(r, c, s).map_err(|e| e.to_string())?;
+                } else if let Some(n) = cell.get("n") {
+                    let f = if let Some(s) = n.as_str() {
+                        s.parse::<f64>().map_err(|e| e.to_string())?
+                    } else {
+                        n.as_f64().ok_or("bad number cell")?
+                    };
+                    ws.write_number(r, c, f).map_err(|e| e.to_string())?;
+                } else if let Some(b) = cell.get("b").and_then(|b| b.as_bool()) {
+                    ws.write_boolean(r, c, b).map_err(|e| e.to_string())?;
+                } else if let Some(f) = cell.get("f").and_then(|f| f.as_str()) {
+                    let res = cell.get("r").and_then(|r| r.as_str()).unwrap_or("");
+                    ws.write_formula(r, c, Formula::new(f).set_result(res))
+                        .map_err(|e| e.to_string())?;
+                }
+            }
+        }
+    }
+    wb.save(path).map_err(|e| e.to_string())
 }
-pub fn run_etrade_case(_case: &Value) -> Value {
-    json!({"harness_error": "not implemented"})
+
+pub fn run_xlsx_case(case: &Value) -> Value {
+    let path = match case.get("path").and_then(|p| p.as_str()) {
+        Some(p) => p.to_string(),
+        None => return json!({"harness_error": "xlsx case needs path"}),
+    };
+    if let Some(sheets) = case.get("sheets").and_then(|s| s.as_array()) {
+        if let Err(e) = write_xlsx(&path, sheets) {
+            return json!({"harness_error": format!("cannot write xlsx: {e}")});
+        }
+    }
+    if case.get("write_only").and_then(|b| b.as_bool()).unwrap_or(false) {
+        return json!({"written": path});
+    }
+    let a = case.get("args").cloned().unwrap_or(json!({}));
+    let re = |k: &str| -> Result<Option<regex::Regex>, String> {
+        match a.get(k).and_then(|v| v.as_str()) {
+            Some(s) => regex::Regex::new(s).map(Some).map_err(|e| e.to_string()),
+            None => Ok(None),
+        }
+    };
+    let (account, security) = match (re("account"), re("security")) {
+        (Ok(a_), Ok(s_)) => (a_, s_),
+        (Err(e), _) | (_, Err(e)) => return json!({"harness_error": e}),
+    };
+    let usd_rate = match a.get("usd_exchange_rate").and_then(|v| v.as_str()) {
+        Some(s) => match s.parse::<rust_decimal::Decimal>() {
+            Ok(d) => Some(d),
+            Err(e) => return json!({"harness_error": e.to_string()}),
+        },
+        None => None,
+    };
+    let args = conv_impl::Args {
+        export_file: PathBuf::from(&path),
+        no_sort: a.get("no_sort").and_then(|b| b.as_bool()).unwrap_or(false),
+        broker: conv_impl::BrokerArg::Questrade,
+        usd_exchange_rate: usd_rate,
+        account,
+        security,
+        no_fx: a.get("no_fx").and_then(|b| b.as_bool()).unwrap_or(false),
+        pretty: a.get("pretty").and_then(|b| b.as_bool()).unwrap_or(false),
+        sheet: a.get("sheet").and_then(|v| v.as_str()).map(String::from),
+    };
+    let (outh, outbuf) = WriteHandle::string_buff_write_handle();
+    let (errh, errbuf) = WriteHandle::string_buff_write_handle();
+    let r = conv_impl::run_with_args(args, outh, errh);
+    let out = outbuf.borrow().as_str().to_string();
+    let err = errbuf.borrow().as_str().to_string();
+    json!({"ok": r.is_ok(), "out": out, "err": err})
 }
-pub fn run_fmv_case(_case: &Value) -> Value {
-    json!({"harness_error": "not implemented"})
+
+pub fn run_etrade_case(case: &Value) -> Value {
+    let dir = match case.get("dir").and_then(|p| p.as_str()) {
+        Some(p) => PathBuf::from(p),
+        None => return json!({"harness_error": "etrade case needs dir"}),
+    };
+    let mut files = Vec::new();
+    if let Some(fs) = case.get("files").and_then(|f| f.as_array()) {
+        for f in fs {
+            let rel = f[0].as_str().unwrap_or("x.txt");
+            let p = dir.join(rel);
+            if let Some(parent) = p.parent() {
+                let _ = std::fs::create_dir_all(parent);
+            }
+            if let Some(hex) = f.get(2).and_then(|h| h.as_str()) {
+                // raw bytes given as hex (for invalid UTF-8 etc.)
+                let bytes: Vec<u8> = (0..hex.len() / 2)
+                    .filter_map(|i| u8::from_str_radix(&hex[2 * i..2 * i + 2], 16).ok())
+                    .collect();
+                if let Err(e) = std::fs::write(&p, bytes) {
+                    return json!({"harness_error": format!("write {p:?}: {e}")});
+                }
+            } else if let Err(e) = std::fs::write(&p, f[1].as_str().unwrap_or("")) {
+                return json!({"harness_error": format!("write {p:?}: {e}")});
+            }
+            files.push(p);
+        }
+    }
+    let args = etrade_impl::Args {
+        files,
+        pretty: case.get("pretty").and_then(|b| b.as_bool()).unwrap_or(false),
+        extract_only: case.get("extract_only").and_then(|b| b.as_bool()).unwrap_or(false),
+        debug: false,
+    };
+    let (outh, outbuf) = WriteHandle::string_buff_write_handle();
+    let (errh, errbuf) = WriteHandle::string_buff_write_handle();
+    let r = etrade_impl::run_with_args(args, outh, errh);
+    let out = outbuf.borrow().as_str().to_string();
+    let err = errbuf.borrow().as_str().to_string();
+    json!({"ok": r.is_ok(), "out": out, "err": err})
 }
-pub fn run_pdf_case(_case: &Value) -> Value {
-    json!({"harness_error": "not implemented"})
+
+fn statement_to_json(r: Result<acb::peripheral::questrade_statement_fmv_impl::StatementFmvs, String>) -> Value {
+    match r {
+        Ok(s) => {
+            let fmvs: Vec<Value> = s
+                .fmvs
+                .iter()
+                .map(|f| json!({"desc": f.security_desc, "alloc": f.allocation.to_string(), "fmv": f.fmv.to_string()}))
+                .collect();
+            json!({"ok": true, "month": s.month_date.to_string(), "fmvs": fmvs, "total": s.total.to_string()})
+        }
+        Err(e) => json!({"ok": false, "err": e}),
+    }
+}
+
+pub fn run_fmv_case(case: &Value) -> Value {
+    let pages: Vec<String> = case
+        .get("pages")
+        .and_then(|p| p.as_array())
+        .map(|a| a.iter().filter_map(|s| s.as_str().map(String::from)).collect())
+        .unwrap_or_default();
+    statement_to_json(parse_statement_text(pages.iter()))
+}
+
+/// Builds a real multi-page PDF with lopdf; page k carries the given lines of text.
+fn build_pdf(page_lines: &Vec<Vec<String>>) -> lopdf::Document {
+    use lopdf::content::{Content, Operation};
+    use lopdf::{dictionary, Document, Object, Stream};
+    let mut doc = Document::with_version("1.5");
+    let pages_id = doc.new_object_id();
+    let font_id = doc.add_object(dictionary! {
+        "Type" => "Font",
+        "Subtype" => "Type1",
+        "BaseFont" => "Courier",
+    });
+    let resources_id = doc.add_object(dictionary! {
+        "Font" => dictionary! { "F1" => font_id },
+    });
+    let mut kids: Vec<Object> = Vec::new();
+    for lines in page_lines {
+        let mut ops = vec![
+            Operation::new("BT", vec![]),
+            Operation::new("Tf", vec!["F1".into(), 10.into()]),
+            Operation::new("TL", vec![14.into()]),
+            Operation::new("Td", vec![40.into(), 760.into()]),
+        ];
+        for l in lines {
+            ops.push(Operation::new("Tj", vec![Object::string_literal(l.as_str())]));
+            ops.push(Operation::new("T*", vec![]));
+        }
+        ops.push(Operation::new("ET", vec![]));
+        let content = Content { operations: ops };
+        let content_id = doc.add_object(Stream::new(dictionary! {}, content.encode().unwrap()));
+        let page_id = doc.add_object(dictionary! {
+            "Type" => "Page",
+            "Parent" => pages_id,
+            "Contents" => content_id,
+        });
+        kids.push(page_id.into());
+    }
+    let count = kids.len() as i64;
+    let pages = dictionary! {
+        "Type" => "Pages",
+        "Kids" => kids,
+        "Count" => count,
+        "Resources" => resources_id,
+        "MediaBox" => vec![0.into(), 0.into(), 595.into(), 842.into()],
+    };
+    doc.objects.insert(pages_id, Object::Dictionary(pages));
+    let catalog_id = doc.add_object(dictionary! {
+        "Type" => "Catalog",
+        "Pages" => pages_id,
+    });
+    doc.trailer.set("Root", catalog_id);
+    doc
+}
+
+pub fn run_pdf_case(case: &Value) -> Value {
+    let page_lines: Vec<Vec<String>> = case
+        .get("pages")
+        .and_then(|p| p.as_array())
+        .map(|a| {
+            a.iter()
+                .map(|pg| {
+                    pg.as_array()
+                        .map(|ls| ls.iter().filter_map(|s| s.as_str().map(String::from)).collect())
+                        .unwrap_or_default()
+                })
+                .collect()
+        })
+        .unwrap_or_default();
+    let hints: Vec<Vec<u32>> = case
+        .get("hints")
+        .and_then(|h| h.as_array())
+        .map(|a| {
+            a.iter()
+                .map(|g| g.as_array().map(|x| x.iter().filter_map(|v| v.as_u64().map(|u| u as u32)).collect()).unwrap_or_default())
+                .collect()
+        })
+        .unwrap_or_default();
+    let parallel = case.get("parallel").and_then(|b| b.as_bool()).unwrap_or(false);
+    if let Some(n) = case.get("num_pages_only").and_then(|n| n.as_u64()) {
+        let groups = LazyPageTextVec::safe_page_chunks_with_remainder_pn(n as u32, &hints);
+        return json!({"n_pages": n, "groups": groups});
+    }
+    let mut doc = build_pdf(&page_lines);
+    // round-trip through bytes, so that what is iterated is a loaded document
+    let mut bytes = Vec::new();
+    if let Err(e) = doc.save_to(&mut bytes) {
+        return json!({"harness_error": format!("pdf save: {e}")});
+    }
+    let doc = match lopdf::Document::load_mem(&bytes) {
+        Ok(d) => d,
+        Err(e) => return json!({"harness_error": format!("pdf load: {e}")}),
+    };
+    let n_pages = acb::peripheral::pdf::get_num_pages(&doc);
+    let groups = LazyPageTextVec::safe_page_chunks_with_remainder(&doc, &hints);
+    let raw_groups = case.get("raw_groups").and_then(|b| b.as_bool()).unwrap_or(false);
+    let use_groups = if raw_groups { hints.clone() } else { groups.clone() };
+    let arc = Arc::new(doc);
+    let mut visited = Vec::new();
+    let last_error;
+    {
+        let mut lazy = LazyPageTextVec::new(arc.clone(), parallel);
+        for (pn, txt) in lazy.optimized_iter(use_groups.clone()) {
+            visited.push(json!([pn, txt.as_str()]));
+        }
+        last_error = lazy.last_error.clone();
+    }
+    let mut out = json!({"n_pages": n_pages, "groups": groups, "visited": visited, "last_error": last_error});
+    if case.get("statement").and_then(|b| b.as_bool()).unwrap_or(false) {
+        let mut lazy = LazyPageTextVec::new(arc.clone(), parallel);
+        let it = lazy.optimized_iter(use_groups);
+        out["statement_hinted"] = statement_to_json(parse_statement_text(it.map(|(_, t)| t)));
+        let all: Vec<u32> = (1..=n_pages).collect();
+        let mut lazy2 = LazyPageTextVec::new(arc, false);
+        let it2 = lazy2.optimized_iter(vec![all]);
+        out["statement_in_order"] = statement_to_json(parse_statement_text(it2.map(|(_, t)| t)));
+    }
+    out
 }
